@@ -133,8 +133,8 @@ def eligible(h, generator: bool = False) -> bool:
       return False
     if isinstance(x, (ast.Yield, ast.YieldFrom)) and not generator:
       return False
-    if isinstance(x, ast.Yield) and generator:
-      return False  # only `yield from <iterable>` statements are re-written
+    if isinstance(x, (ast.Try, ast.With, ast.AsyncWith)) and generator:
+      return False  # a suspended generator keeps its handlers active
     if isinstance(x, ast.Call) and isinstance(x.func, ast.Name) and (
         x.func.id == h.name):
       return False
@@ -396,13 +396,35 @@ class Inliner:
     if not (isinstance(st, ast.For) and isinstance(st.iter, ast.Call) and
             not st.orelse):
       return None
-    if any(isinstance(x, ast.Break) for b in st.body for x in ast.walk(b)):
+    def escapes(stmts, in_loop=False):
+      # break / continue that would leave BODY (they mean "stop / next item")
+      for s_ in stmts:
+        if isinstance(s_, (ast.Break, ast.Continue)) and not in_loop:
+          return True
+        if isinstance(s_, (ast.For, ast.While, ast.AsyncFor)):
+          if escapes(s_.orelse, in_loop):
+            return True
+          continue
+        if isinstance(s_, (ast.FunctionDef, ast.AsyncFunctionDef, ast.ClassDef)):
+          continue
+        for fld in ('body', 'orelse', 'finalbody'):
+          v = getattr(s_, fld, None)
+          if isinstance(v, list) and v and isinstance(
+              v[0], ast.stmt) and escapes(v, in_loop):
+            return True
+        for hd in getattr(s_, 'handlers', []) or []:
+          if escapes(hd.body, in_loop):
+            return True
+      return False
+
+    if escapes(st.body):
       return None
     h = self._callee(st.iter, f, generator=True)
     if h is None:
       return None
     body = copy.deepcopy(_strip_doc(h.node.body))
-    yf = [x for b in body for x in ast.walk(b) if isinstance(x, ast.YieldFrom)]
+    yf = [x for b in body for x in ast.walk(b)
+          if isinstance(x, (ast.YieldFrom, ast.Yield))]
     if not yf or any(isinstance(x, ast.Return) for b in body
                      for x in ast.walk(b)):
       return None
@@ -423,11 +445,18 @@ class Inliner:
           out.append(ast.For(target=copy.deepcopy(st.target),
                              iter=s_.value.value,
                              body=copy.deepcopy(st.body), orelse=[]))
-        elif isinstance(s_, ast.If):
+        elif isinstance(s_, ast.Expr) and isinstance(
+            s_.value, ast.Yield) and s_.value.value is not None:
+          # `yield E`  ->  T = E; BODY
+          out.append(ast.Assign(targets=[copy.deepcopy(st.target)],
+                                value=s_.value.value))
+          out.extend(copy.deepcopy(st.body))
+        elif isinstance(s_, (ast.If, ast.For, ast.While)):
           s_.body = conv(s_.body) or [ast.Pass()]
           s_.orelse = conv(s_.orelse)
           out.append(s_)
-        elif any(isinstance(x, ast.YieldFrom) for x in ast.walk(s_)):
+        elif any(isinstance(x, (ast.YieldFrom, ast.Yield))
+                 for x in ast.walk(s_)):
           ok[0] = False
           out.append(s_)
         else:
